@@ -274,80 +274,98 @@ def r5(ctx):
 PREC = {"Add": 1, "Subtract": 1, "Multiply": 2, "Divide": 2, "Modulo": 2}
 
 
-def r6(ctx):
-    """the text of an arithmetic expression (the per-row cache key, group key and JSON key) determines its tree: an operand
-    is written in brackets whenever leaving them out would print the text of a different tree (left operand: binds looser
-    than the operator around it; right operand: binds looser or equally, since the parser associates to the left)"""
+def expr_text(ctx, e, depth=0):
+    """the text Display for Expr produces for an expression tree (dict of the ten Expr fields), read off the source by the
+    finite interpreter: writes to the formatter are collected; operands and arguments are rendered recursively"""
     import interp
-    dh = ctx.anchor_hir(DISPLAY)
-    sites = []
-    for c in walk_exprs(dh):
-        if c["k"] == "Call" and c.get("callee", "").startswith("expr::") and c["args"] and render(peel(c["args"][0])) in ("left", "right"):
-            sites.append(c)
-    sides = {render(peel(c["args"][0])) for c in sites}
-    ok = sides == {"left", "right"}
-    ctx.obligation(ok)
-    if not ok:
-        ctx.violation("key/brackets/sites", ctx.where(DISPLAY), "Display for Expr must write both operands through a helper that decides on brackets; "
-                      "found helper calls for %s" % sorted(sides))
-        return
-    n = 0
-    ops = list(PREC)
-    for c in sites:
-        side = render(peel(c["args"][0]))
-        helper = c["callee"]
-        fn = ctx.prog.fns.get(helper)
-        if not fn or "hir" not in fn or "params" not in fn:
-            ctx.violation("key/brackets/helper", ctx.where(DISPLAY, c), "cannot see the body of %s" % helper)
-            continue
-        outer_idx = [i for i, a in enumerate(c["args"]) if "arithmetic_op" in render(a)]
-        for inner in ops:
-            for outer in ops:
-                need = PREC[inner] < PREC[outer] if side == "left" else PREC[inner] <= PREC[outer]
-                tmpl = []
+    if depth > 6:
+        raise interp.Undecided("expression too deep")
+    h = ctx.anchor_hir(DISPLAY)
+    ps = ctx.prog.fns[DISPLAY]["params"]
+    out = []
 
-                def effect(node, it, env, tmpl=tmpl):
-                    if node.get("mac") in ("write", "writeln"):
-                        tmpl.extend(t for t, _ in fmt_templates(node))
-                        return (interp.V("Result::Ok", [()]),)
-                    return None
-                it = interp.Interp(effect=effect)
-                env = {}
-                for i, p in enumerate(fn["params"]):
-                    if p["k"] != "Bind":
-                        continue
-                    if i == 0:
-                        env[p["id"]] = {"arithmetic_op": interp.some(interp.V("ArithmeticOp::" + inner)), "minus": False,
-                                        "left": interp.Opaque("left"), "right": interp.Opaque("right"), "function": interp.NONE,
-                                        "field": interp.NONE, "val": interp.NONE, "args": interp.NONE, "op": interp.NONE, "logical_op": interp.NONE}
-                    elif i in outer_idx:
-                        env[p["id"]] = interp.some(interp.V("ArithmeticOp::" + outer))
-                    else:
-                        try:
-                            env[p["id"]] = interp.Interp().ev(c["args"][i], {})      # literal arguments (e.g. a side flag)
-                        except (interp.Undecided, IndexError):
-                            env[p["id"]] = interp.Opaque(p["name"])
-                try:
-                    it.run(ctx.prog.hir(helper), env)
-                except interp.Undecided as e:
-                    ctx.violation("key/brackets/undecided", ctx.where(helper), "cannot evaluate the bracket decision of %s for inner %s, outer %s: %s" % (short(helper, 1), inner, outer, e))
-                    return
-                n += 1
-                bracketed = any(t.startswith("(") and t.endswith(")") for t in tmpl)
-                ok = bracketed or not need
-                ctx.obligation(ok)
-                if not ok:
-                    a, b = ("(x %s y) %s z", "x %s y %s z") if side == "left" else ("x %s (y %s z)", "x %s y %s z")
-                    sym = {"Add": "+", "Subtract": "-", "Multiply": "*", "Divide": "/", "Modulo": "%"}
-                    s1 = a % ((sym[inner], sym[outer]) if side == "left" else (sym[outer], sym[inner]))
-                    s2 = b % ((sym[inner], sym[outer]) if side == "left" else (sym[outer], sym[inner]))
-                    ctx.violation("key/brackets/%s/%s-in-%s" % (side, inner, outer), ctx.where(helper),
-                                  "the %s operand `%s` inside `%s` is written without brackets: `%s` and `%s` are different trees with the "
-                                  "same text, so they share one cached value / JSON key / group key" % (side, inner, outer, s1, s2))
-                if not outer_idx:
+    def show(v):
+        if isinstance(v, dict) and "arithmetic_op" in v:
+            return expr_text(ctx, v, depth + 1)
+        if isinstance(v, interp.V):
+            return v.name.split("::")[-1]
+        if isinstance(v, (str, int, float)) and not isinstance(v, bool):
+            return str(v)
+        raise interp.Undecided("cannot show %r" % (v,))
+
+    def call(node, recv, args, it, env):
+        m = node.get("m")
+        if m in ("write_str", "write_char", "push_str", "push") and args and isinstance(args[0], str) and isinstance(recv, dict) and recv.get("__fmt"):
+            out.append(args[0])
+            return (interp.V("Result::Ok", [()]),)
+        if m == "to_string" and (isinstance(recv, interp.V) or (isinstance(recv, dict) and "arithmetic_op" in recv)):
+            return (show(recv),)
+        return None
+
+    def effect(node, it, env):
+        if node.get("mac") in ("write", "writeln") and node["k"] == "MCall" and node.get("m") == "write_fmt":
+            ts = fmt_templates(node)
+            tup = None
+            for x in walk(node):
+                if x["k"] == "Let" and x.get("init") is not None and x["init"]["k"] == "Tup":
+                    tup = x["init"]
                     break
-    ctx.covered("bracket decision of Display for Expr over (side, inner operator, outer operator), evaluated on the source by the finite interpreter",
-                n, distinct_keys=["%s" % s for s in sides], exhaustive=True)
+            vals = [it.ev(x, env) for x in tup["es"]] if tup is not None else []
+            if len(ts) != 1:
+                return None
+            parts = ts[0][0].split("{}")
+            if len(parts) - 1 != len(vals):
+                return None
+            txt = ""
+            for k_, part in enumerate(parts):
+                txt += part
+                if k_ < len(vals):
+                    txt += show(vals[k_])
+            out.append(txt)
+            return (interp.V("Result::Ok", [()]),)
+        return None
+    env = {ps[0]["id"]: e, ps[1]["id"]: {"__fmt": True}}
+    interp.Interp(call=call, effect=effect, prog=ctx.prog, max_steps=60000).run(h, env)
+    return "".join(out)
+
+
+def r6(ctx):
+    """the text of an arithmetic expression (the per-row cache key, group key and JSON key) determines its tree: Display for
+    Expr is evaluated (finite interpreter) on all 50 trees with three leaves and two operators - (a OP b) OP c and
+    a OP (b OP c) - and their texts must be pairwise different"""
+    import interp
+    NONE, some = interp.NONE, interp.some
+
+    def leaf(name):
+        return {"field": some(interp.V("Field::" + name)), "left": NONE, "right": NONE, "args": NONE, "function": NONE, "val": NONE, "minus": False,
+                "op": NONE, "logical_op": NONE, "arithmetic_op": NONE}
+
+    def node(l, op, r):
+        return {"field": NONE, "left": some(l), "right": some(r), "args": NONE, "function": NONE, "val": NONE, "minus": False, "op": NONE,
+                "logical_op": NONE, "arithmetic_op": some(interp.V("ArithmeticOp::" + op))}
+    a, b, c = leaf("Size"), leaf("Uid"), leaf("Gid")
+    sym = {"Add": "+", "Subtract": "-", "Multiply": "*", "Divide": "/", "Modulo": "%"}
+    texts = {}
+    n = 0
+    try:
+        for o1 in PREC:
+            for o2 in PREC:
+                for shape, tree in (("(x %s y) %s z" % (sym[o1], sym[o2]), node(node(a, o1, b), o2, c)), ("x %s (y %s z)" % (sym[o1], sym[o2]), node(a, o1, node(b, o2, c)))):
+                    t = expr_text(ctx, tree)
+                    n += 1
+                    texts.setdefault(t, []).append(shape)
+    except interp.Undecided as e:
+        ctx.violation("key/brackets/undecided", ctx.where(DISPLAY), "cannot evaluate Display for Expr on an arithmetic tree: %s" % e)
+        return
+    coll = {t: shapes for t, shapes in texts.items() if len(shapes) > 1}
+    ctx.obligation(not coll)
+    for t, shapes in sorted(coll.items())[:6]:
+        side = "right" if any(s_.startswith("x ") and "(" in s_ for s_ in shapes) else "left"
+        ctx.violation("key/brackets/%s/%s" % (side, re.sub(r"[^A-Za-z0-9]+", "_", t)), ctx.where(DISPLAY),
+                      "the different trees %s are all written `%s`: they share one cached value / JSON key / group key" % (" and ".join("`%s`" % s_ for s_ in shapes), t))
+    ctx.covered("texts of the 50 arithmetic trees with three leaves (Display for Expr evaluated by the finite interpreter): pairwise different",
+                n, distinct_keys=["trees:%d" % n], sample={"example": sorted(texts)[:4]}, exhaustive=True)
+    ctx.floor(n, 50, "arithmetic trees rendered", DISPLAY)
 
 
 def r7(ctx):
